@@ -232,6 +232,7 @@ func VerifIterNested(which int, L int) {
 		vAssert(src.pulls == 0, "lazy/nothing-pulled-before-first-next")
 		ref := xslices.Runs(items, same)
 		drain := vNondetBool("drainInner")
+		var prevIn Iterator[int]
 		for k := 0; k < len(ref)+2; k++ {
 			in, ok := out.Next()
 			if k >= len(ref) {
@@ -254,6 +255,13 @@ func VerifIterNested(which int, L int) {
 					vAssert(!ok, "sticky-end/runs-inner")
 				}
 			}
+			// an earlier run that has reported its end stays ended after the outer iterator
+			// moved on (and asking it again takes nothing away from the runs that follow)
+			if prevIn != nil {
+				_, ok := prevIn.Next()
+				vAssert(!ok, "sticky-end/runs-inner-after-the-outer-moved-on")
+			}
+			prevIn = in
 		}
 	case 2: // Flatten and Join over three parts (middle one empty)
 		a := L / 2
